@@ -33,8 +33,8 @@ from machines.build import BUILD_STUBS
 
 NAMES = {'n0': ['x', 'y', 'z'], 'n1': ['y', 'extra'], 'N2': ['x', 'k'],
          'N3': ['x', 'y'], 'n4': [], 'n5': ['x'], 'n6': ['x', 'y', 'k'],
-         'n0b': ['x', 'y', 'w'], 'n7': ['x', 'extra']}
-JSON_OK = ('n0', 'n1', 'N2', 'N3', 'n6', 'n0b', 'n7')   # stubs that have a pyref
+         'n0b': ['x', 'y', 'w'], 'n7': ['x', 'extra'], 'n9': ['x', 'y']}
+JSON_OK = ('n0', 'n1', 'N2', 'N3', 'n6', 'n0b', 'n7', 'n9')   # stubs that have a pyref
 TAGS = ['T0', 'T1', 'T2', 'U0']
 BTYPES = {'Config': fdl.Config, 'Partial': fdl.Partial,
           'ArgFactory': fdl.ArgFactory}
@@ -261,6 +261,7 @@ def gen_case(world, tier, prop):
     fn_of.append(fn_of[c])
     return op
 
+  late_defined = [False]
   ops = [new_op()]
   n = rng.randint(3, 16 if tier == 'thorough' else 11)
   pending = []
@@ -283,6 +284,14 @@ def gen_case(world, tier, prop):
       pending += [again, edit]
     if rng.random() < 0.06:
       ops.append({'op': rng.choice(['suspend_enter', 'suspend_exit'])})
+      continue
+    if 'n9' in fn_of and not late_defined[0] and rng.random() < 0.15:
+      # the global that n9's string annotation names comes into existence
+      ops.append({'op': 'define_late'})
+      late_defined[0] = True
+      if rng.random() < 0.7:
+        ops.append({'op': 'new', 'v': node(0, fn='n9')})   # a configuration made afterwards
+        fn_of.append('n9')
       continue
     if mode == 'C07':
       if r < 0.10:
@@ -430,6 +439,10 @@ def matches(tag_names, T):
 
 def model_apply(S_: Side, op):
   k = op['op']
+  if k == 'define_late':
+    # from now on Config(n9) finds the tag its annotation names
+    S_.fns['n9']._fsim_ann = {'x': ['T1']}
+    return None
   if k == 'new':
     S_.roots.append(S_.value(op['v']))
     return None
@@ -626,6 +639,9 @@ def _store_tail(m, key, v):
 
 def impl_apply(S_: Side, op):
   k = op['op']
+  if k == 'define_late':
+    stubmod.LATE_A = stubmod.T1
+    return None
   if k == 'new':
     S_.roots.append(S_.value(op['v']))
     return None
@@ -882,6 +898,7 @@ def V(prop, clause, msg, op):
 
 def run(case):
   stubs.reset()
+  stubmod.__dict__.pop('LATE_A', None)   # (n9's annotation is unresolvable at first)
   fns = stubs.install(BUILD_STUBS)
   svs = {}
   mode = case['mode']
